@@ -8,6 +8,42 @@ use std::io::{BufRead, Write};
 pub mod lin;
 
 // ---------------------------------------------------------------------------------------
+// Address stability: the simulator identifies memory locations by address. If the heap handed a freed
+// block to a new object during a run, whether two objects share an identity would depend on the heap's
+// history (timing of thread exits in earlier runs, ...). While a simulation runs, frees are therefore
+// quarantined and only carried out after the run.
+pub struct QuarantineAlloc;
+unsafe impl std::alloc::GlobalAlloc for QuarantineAlloc {
+    unsafe fn alloc(&self, layout: std::alloc::Layout) -> *mut u8 {
+        unsafe { std::alloc::System.alloc(layout) }
+    }
+    unsafe fn alloc_zeroed(&self, layout: std::alloc::Layout) -> *mut u8 {
+        unsafe { std::alloc::System.alloc_zeroed(layout) }
+    }
+    unsafe fn dealloc(&self, ptr: *mut u8, layout: std::alloc::Layout) {
+        if !sim::quarantine::push(ptr as usize, layout.size(), layout.align()) {
+            unsafe { std::alloc::System.dealloc(ptr, layout) }
+        }
+    }
+}
+
+/// run one simulation with quarantined frees (see sim::quarantine)
+pub fn sim_run<F: FnOnce() + Send + 'static>(cfg: RunCfg, dec: Decisions, body: F) -> Report {
+    use std::alloc::GlobalAlloc;
+    sim::quarantine::set(true);
+    let r = sim::run(cfg, dec, body);
+    sim::quarantine::set(false);
+    sim::quarantine::flush(|p, s, a| unsafe {
+        if a == 0 {
+            libc::free(p as *mut libc::c_void);
+        } else {
+            std::alloc::System.dealloc(p as *mut u8, std::alloc::Layout::from_size_align_unchecked(s, a));
+        }
+    });
+    r
+}
+
+// ---------------------------------------------------------------------------------------
 // plans
 
 #[derive(Clone, Debug, Serialize, Deserialize, PartialEq)]
@@ -294,7 +330,10 @@ pub fn worker(h: &dyn Harness, verif_seed: u64, from: u64, to: u64, only_mode: O
         let (rs, mode, deciding, plan, cfg) = derive_run(h, verif_seed, index, only_mode);
         let res = h.execute(&plan, &cfg, Decisions::Seeded(rs));
         let rep = &res.report;
-        if std::env::var("VSIM_TRACE").is_ok() {
+        if std::env::var("VSIM_FPS").is_ok() {
+            eprintln!("FP {index} {:016x} steps={}", rep.fingerprint, rep.steps);
+        }
+        if std::env::var("VSIM_TRACE").is_ok() || std::env::var("VSIM_DUMP").ok().and_then(|v| v.parse::<u64>().ok()) == Some(index) {
             eprintln!("=== run {index}");
             for l in &rep.log_tail {
                 eprintln!("{l}");
